@@ -429,7 +429,7 @@ def history_st(draw, tier):
         aces = [it for it in acl["items"] if it["t"] == "ace"]
         if aces:
             acl["max_ncwb"] = 30
-            draw(st.sampled_from(aces))["rec"]["src"] = {"k": "wild", "b": 0x0A000001, "w": 0x03FFFE00 | draw(st.integers(0, 255)) << 1 & ~1}
+            draw(st.sampled_from(aces))["rec"]["src"] = {"k": "wild", "b": 0x08000001, "w": 0x03FFFE00 | (draw(st.integers(0, 255)) << 1 & ~1)}
     ops = draw(st.lists(op_st(acl["platform"]), min_size=4, max_size=25 if tier == "quick" else 40))
     return {"acl": acl, "ops": ops}
 
